@@ -5,7 +5,7 @@ From Coq Require Import Permutation Sorted Lia.
 Local Open Scope nat_scope.
 
 (* ---- association lists -------------------------------------------------------------------------------------------------- *)
-Lemma gp_map_get_keys : forall g (m : gpmap), gp_map_get g m <> None <-> existsb (name_eqb g) (map fst m) = true.
+Lemma gpp_map_get_keys : forall g (m : gpmap), gpp_map_get g m <> None <-> existsb (name_eqb g) (map fst m) = true.
 Proof.
   induction m as [|[k v] m IH]; simpl.
   - split; [congruence | discriminate].
@@ -16,7 +16,7 @@ Qed.
 Lemma reserved_literal : reserved_literal_stmt.
 Proof.
   intros perm sorter feat_gen st. eexists. split; [reflexivity | split; [reflexivity |]].
-  intro g. rewrite gp_map_get_keys. reflexivity.
+  intro g. rewrite gpp_map_get_keys. reflexivity.
 Qed.
 
 (* ---- unfolding equations of the interpreter --------------------------------------------------------------------------------- *)
@@ -26,25 +26,25 @@ Section Unfold.
   Variable feat_gen : gpvalue -> bool.
   Variable call : gname -> list gpvalue -> gpstate -> gpres (list gpvalue).
 
-  Definition gp_range_step (k v : gname) (body : list gpstmt) (it : gpvalue * gpvalue) (st : gpstate) : gpres gpsig :=
-    gp_scoped (gp_block perm sorter feat_gen call) (gp_bind_item k v it) body st.
+  Definition gpp_range_step (k v : gname) (body : list gpstmt) (it : gpvalue * gpvalue) (st : gpstate) : gpres gpsig :=
+    gpp_scoped (gpp_block perm sorter feat_gen call) (gpp_bind_item k v it) body st.
 
-  Lemma gp_block_nil : forall st, gp_block perm sorter feat_gen call [] st = GpOk GsgNext st.
+  Lemma gpp_block_nil : forall st, gpp_block perm sorter feat_gen call [] st = GpOk GsgNext st.
   Proof. reflexivity. Qed.
-  Lemma gp_block_cons : forall s t st,
-    gp_block perm sorter feat_gen call (s :: t) st =
-    match gp_exec perm sorter feat_gen call s st with GpOk GsgNext st' => gp_block perm sorter feat_gen call t st' | r => r end.
+  Lemma gpp_block_cons : forall s t st,
+    gpp_block perm sorter feat_gen call (s :: t) st =
+    match gpp_exec perm sorter feat_gen call s st with GpOk GsgNext st' => gpp_block perm sorter feat_gen call t st' | r => r end.
   Proof. reflexivity. Qed.
 
-  Lemma gp_exec_range : forall k v e body st,
-    gp_exec perm sorter feat_gen call (GpsRange k v e body) st =
-    gp_bind1 (gp_eval feat_gen call e st) (fun ve st1 =>
+  Lemma gpp_exec_range : forall k v e body st,
+    gpp_exec perm sorter feat_gen call (GpsRange k v e body) st =
+    gpp_bind1 (gpp_eval feat_gen call e st) (fun ve st1 =>
       match ve with
-      | GpvSlice l => gp_loop (gp_range_step k v body) (gp_index_items 0 l) st1
+      | GpvSlice l => gpp_loop (gpp_range_step k v body) (gpp_index_items 0 l) st1
       | GpvMap None => GpOk GsgNext st1
       | GpvMap (Some c) =>
-        match gp_heap_get (gp_maps st1) c with
-        | Some m => gp_loop (gp_range_step k v body) (map (fun kv => (GpvStr (fst kv), snd kv)) (perm m)) st1
+        match gpp_heap_get (gpp_maps st1) c with
+        | Some m => gpp_loop (gpp_range_step k v body) (map (fun kv => (GpvStr (fst kv), snd kv)) (perm m)) st1
         | None => GpStuck
         end
       | _ => GpStuck
@@ -53,49 +53,49 @@ Section Unfold.
 End Unfold.
 
 (* ---- symbolic execution ------------------------------------------------------------------------------------------------------
-   The head statement of a block is executed in isolation (a small goal `gp_exec … s st = ?result`, solved by reduction and the
+   The head statement of a block is executed in isolation (a small goal `gpp_exec … s st = ?result`, solved by reduction and the
    rewrites the caller names) and the result is rewritten into the main goal: the continuation is never reduced while a lookup in a
    symbolic table is stuck (conversion of two big stuck terms is what makes Qed diverge). *)
-Arguments gp_block : simpl never.
-Arguments gp_loop : simpl never.
-Arguments gp_glob_get : simpl never.
-Arguments gp_heap_get : simpl never.
-Arguments gp_map_get : simpl never.
-Arguments gp_map_set : simpl never.
-Arguments gp_get_msg : simpl never.
-Arguments gp_set_msg : simpl never.
-(* states are kept as explicit records: gp_with_… mention the state once per field, so nests of them grow exponentially under conversion *)
-Arguments gp_pop st /.
-Arguments gp_push fr st /.
-Arguments gp_with_env st en /.
-Arguments gp_with_glob st g /.
-Arguments gp_with_maps st m /.
-Arguments gp_with_files st f /.
-Arguments gp_with_outs st o /.
-Arguments gp_with_err st e /.
+Arguments gpp_block : simpl never.
+Arguments gpp_loop : simpl never.
+Arguments gpp_glob_get : simpl never.
+Arguments gpp_heap_get : simpl never.
+Arguments gpp_map_get : simpl never.
+Arguments gpp_map_set : simpl never.
+Arguments gpp_get_msg : simpl never.
+Arguments gpp_set_msg : simpl never.
+(* states are kept as explicit records: gpp_with_… mention the state once per field, so nests of them grow exponentially under conversion *)
+Arguments gpp_pop st /.
+Arguments gpp_push fr st /.
+Arguments gpp_with_env st en /.
+Arguments gpp_with_glob st g /.
+Arguments gpp_with_maps st m /.
+Arguments gpp_with_files st f /.
+Arguments gpp_with_outs st o /.
+Arguments gpp_with_err st e /.
 Ltac ss := simpl; cbn.
 Ltac exec_head tac :=
-  rewrite gp_block_cons;
+  rewrite gpp_block_cons;
   match goal with
-  | |- context [gp_exec ?p ?s ?f ?c ?stm ?st] =>
+  | |- context [gpp_exec ?p ?s ?f ?c ?stm ?st] =>
     let H := fresh "Hx" in
-    eassert (H : gp_exec p s f c stm st = _); [ tac | rewrite H; clear H ]
+    eassert (H : gpp_exec p s f c stm st = _); [ tac | rewrite H; clear H ]
   end.
 Ltac loop_head :=
-  match goal with |- context [gp_loop ?f (?it :: ?rest) ?st] => change (gp_loop f (it :: rest) st) with
+  match goal with |- context [gpp_loop ?f (?it :: ?rest) ?st] => change (gpp_loop f (it :: rest) st) with
       (match f it st with
-       | GpOk GsgNext st' | GpOk GsgContinue st' => gp_loop f rest st'
+       | GpOk GsgNext st' | GpOk GsgContinue st' => gpp_loop f rest st'
        | GpOk GsgBreak st' => GpOk GsgNext st'
        | r => r
        end) end.
 
 Lemma nth_error_snoc_new : forall {A} (M : list A) (m : A), nth_error (M ++ [m]) (length M) = Some m.
 Proof. intros. rewrite nth_error_app2 by lia. rewrite Nat.sub_diag. reflexivity. Qed.
-Lemma gp_heap_get_snoc_new : forall M m, gp_heap_get (M ++ [m]) (length M) = Some m.
+Lemma gpp_heap_get_snoc_new : forall M m, gpp_heap_get (M ++ [m]) (length M) = Some m.
 Proof. intros. apply nth_error_snoc_new. Qed.
-Lemma gp_heap_get_snoc_old : forall M m c x, gp_heap_get M c = Some x -> gp_heap_get (M ++ [m]) c = Some x.
-Proof. unfold gp_heap_get. intros M m c x H. rewrite nth_error_app1; [exact H | apply nth_error_Some; congruence]. Qed.
-Lemma gp_list_set_snoc : forall {A} (M : list A) (m x : A), gp_list_set (length M) x (M ++ [m]) = M ++ [x].
+Lemma gpp_heap_get_snoc_old : forall M m c x, gpp_heap_get M c = Some x -> gpp_heap_get (M ++ [m]) c = Some x.
+Proof. unfold gpp_heap_get. intros M m c x H. rewrite nth_error_app1; [exact H | apply nth_error_Some; congruence]. Qed.
+Lemma gpp_list_set_snoc : forall {A} (M : list A) (m x : A), gpp_list_set (length M) x (M ++ [m]) = M ++ [x].
 Proof. induction M as [|a M IH]; intros; simpl; [reflexivity | rewrite IH; reflexivity]. Qed.
 
 (* ---- (a) findFeatures ---------------------------------------------------------------------------------------------------------- *)
@@ -105,7 +105,7 @@ Fixpoint req_loop (reg : gpmap) (names : list name) (m : gpmap) : req_res :=
   match names with
   | [] => ReqDone m
   | n :: r => if name_eqb n s_all then ReqAll m
-              else match gp_map_get n reg with None => ReqErr n m | Some v => req_loop reg r (gp_map_set n v m) end
+              else match gpp_map_get n reg with None => ReqErr n m | Some v => req_loop reg r (gpp_map_set n v m) end
   end.
 Definition ff_mk (kv : name * gpvalue) : gpvalue := GpvStruct "namefeat" [("name"%gname, GpvStr (fst kv)); ("feat"%gname, snd kv)].
 
@@ -117,15 +117,15 @@ Section FF.
   Variables (G : gpframe) (M : list gpmap) (F : list pfile) (O : list pout) (P : list (name * name)) (E : option (gname * list name)).
   Variable V : gpvalue.
   Variables (c : nat) (reg : gpmap).
-  Hypothesis HG : gp_glob_get "defaultFeatures"%gname G = Some (GpvMap (Some c)).
-  Hypothesis HM : forall m, gp_heap_get (M ++ [m]) c = Some reg.
+  Hypothesis HG : gpp_glob_get "defaultFeatures"%gname G = Some (GpvMap (Some c)).
+  Hypothesis HM : forall m, gpp_heap_get (M ++ [m]) c = Some reg.
 
   Notation ST1 rv m :=
-    {| gp_env := [[("required"%gname, rv); ("featureNames"%gname, V)]]; gp_glob := G; gp_maps := M ++ [m]; gp_files := F; gp_outs := O;
-       gp_params := P; gp_err := E |}.
+    {| gpp_env := [[("required"%gname, rv); ("featureNames"%gname, V)]]; gpp_glob := G; gpp_maps := M ++ [m]; gpp_files := F; gpp_outs := O;
+       gpp_params := P; gpp_err := E |}.
 
   Lemma ff_names_loop : forall names k m,
-    gp_loop (gp_range_step perm sorter feat_gen call "_" "name" canon_ff_names_body) (gp_index_items k (map GpvStr names)) (ST1 (GpvMap (Some (length M))) m)
+    gpp_loop (gpp_range_step perm sorter feat_gen call "_" "name" canon_ff_names_body) (gpp_index_items k (map GpvStr names)) (ST1 (GpvMap (Some (length M))) m)
     = match req_loop reg names m with
       | ReqErr n m' => GpOk (GsgRet [GpvNil; GpvErr (Some (s_unknown_feature, [n]))]) (ST1 (GpvMap (Some (length M))) m')
       | ReqAll m' => GpOk GsgNext (ST1 (GpvMap (Some c)) m')
@@ -134,17 +134,17 @@ Section FF.
   Proof.
     induction names as [|n names IH]; intros k m.
     - reflexivity.
-    - simpl map. simpl gp_index_items. simpl req_loop. loop_head.
-      unfold gp_range_step at 1. unfold gp_scoped. unfold canon_ff_names_body.
+    - simpl map. simpl gpp_index_items. simpl req_loop. loop_head.
+      unfold gpp_range_step at 1. unfold gpp_scoped. unfold canon_ff_names_body.
       destruct (name_eqb n s_all) eqn:En.
-      + exec_head ltac:(ss; unfold s_all in En; rewrite En; unfold gp_scoped; ss; rewrite HG; ss; reflexivity).
+      + exec_head ltac:(ss; unfold s_all in En; rewrite En; unfold gpp_scoped; ss; rewrite HG; ss; reflexivity).
         ss. reflexivity.
       + exec_head ltac:(ss; unfold s_all in En; rewrite En; ss; reflexivity).
-        destruct (gp_map_get n reg) as [v|] eqn:Ev.
+        destruct (gpp_map_get n reg) as [v|] eqn:Ev.
         * exec_head ltac:(ss; rewrite HG; ss; rewrite HM; rewrite Ev; ss; reflexivity).
           exec_head ltac:(ss; reflexivity).
-          exec_head ltac:(ss; rewrite gp_heap_get_snoc_new; ss; rewrite gp_list_set_snoc; reflexivity).
-          rewrite gp_block_nil. ss. fold canon_ff_names_body. apply IH.
+          exec_head ltac:(ss; rewrite gpp_heap_get_snoc_new; ss; rewrite gpp_list_set_snoc; reflexivity).
+          rewrite gpp_block_nil. ss. fold canon_ff_names_body. apply IH.
         * exec_head ltac:(ss; rewrite HG; ss; rewrite HM; rewrite Ev; ss; reflexivity).
           exec_head ltac:(ss; reflexivity).
           ss. reflexivity.
@@ -160,40 +160,40 @@ Section FF2.
   Variables (V RV : gpvalue).
 
   Notation ST2 acc :=
-    {| gp_env := [[("sorted"%gname, GpvSlice acc); ("namefeat"%gname, GpvType ["name"%gname; "feat"%gname]); ("required"%gname, RV);
+    {| gpp_env := [[("sorted"%gname, GpvSlice acc); ("namefeat"%gname, GpvType ["name"%gname; "feat"%gname]); ("required"%gname, RV);
                    ("featureNames"%gname, V)]];
-       gp_glob := G; gp_maps := MM; gp_files := F; gp_outs := O; gp_params := P; gp_err := E |}.
+       gpp_glob := G; gpp_maps := MM; gpp_files := F; gpp_outs := O; gpp_params := P; gpp_err := E |}.
 
   Lemma ff_required_loop : forall es acc,
-    gp_loop (gp_range_step perm sorter feat_gen call "name" "feat" canon_ff_required_body) (map (fun kv => (GpvStr (fst kv), snd kv)) es) (ST2 acc)
+    gpp_loop (gpp_range_step perm sorter feat_gen call "name" "feat" canon_ff_required_body) (map (fun kv => (GpvStr (fst kv), snd kv)) es) (ST2 acc)
     = GpOk GsgNext (ST2 (acc ++ map ff_mk es)).
   Proof.
     induction es as [|[k v] es IH]; intros acc.
     - simpl. rewrite app_nil_r. reflexivity.
-    - simpl map. loop_head. unfold gp_range_step at 1. unfold gp_scoped. unfold canon_ff_required_body.
+    - simpl map. loop_head. unfold gpp_range_step at 1. unfold gpp_scoped. unfold canon_ff_required_body.
       exec_head ltac:(ss; reflexivity).
-      rewrite gp_block_nil. ss. fold canon_ff_required_body. rewrite IH. rewrite <- app_assoc. reflexivity.
+      rewrite gpp_block_nil. ss. fold canon_ff_required_body. rewrite IH. rewrite <- app_assoc. reflexivity.
   Qed.
 
   Notation ST3 sl fs :=
-    {| gp_env := [[("features"%gname, GpvSlice fs); ("sorted"%gname, GpvSlice sl); ("namefeat"%gname, GpvType ["name"%gname; "feat"%gname]);
+    {| gpp_env := [[("features"%gname, GpvSlice fs); ("sorted"%gname, GpvSlice sl); ("namefeat"%gname, GpvType ["name"%gname; "feat"%gname]);
                    ("required"%gname, RV); ("featureNames"%gname, V)]];
-       gp_glob := G; gp_maps := MM; gp_files := F; gp_outs := O; gp_params := P; gp_err := E |}.
+       gpp_glob := G; gpp_maps := MM; gpp_files := F; gpp_outs := O; gpp_params := P; gpp_err := E |}.
 
   Lemma ff_sorted_loop : forall sl es k fs,
-    gp_loop (gp_range_step perm sorter feat_gen call "_" "sp" canon_ff_sorted_body) (gp_index_items k (map ff_mk es)) (ST3 sl fs)
+    gpp_loop (gpp_range_step perm sorter feat_gen call "_" "sp" canon_ff_sorted_body) (gpp_index_items k (map ff_mk es)) (ST3 sl fs)
     = GpOk GsgNext (ST3 sl (fs ++ map snd es)).
   Proof.
     induction es as [|[k0 v] es IH]; intros k fs.
     - simpl. rewrite app_nil_r. reflexivity.
-    - simpl map. simpl gp_index_items. loop_head. unfold gp_range_step at 1. unfold gp_scoped. unfold canon_ff_sorted_body.
+    - simpl map. simpl gpp_index_items. loop_head. unfold gpp_range_step at 1. unfold gpp_scoped. unfold canon_ff_sorted_body.
       exec_head ltac:(ss; reflexivity).
-      rewrite gp_block_nil. ss. fold canon_ff_sorted_body. rewrite IH. rewrite <- app_assoc. reflexivity.
+      rewrite gpp_block_nil. ss. fold canon_ff_sorted_body. rewrite IH. rewrite <- app_assoc. reflexivity.
   Qed.
 End FF2.
 
 Lemma ff_less : forall feat_gen call st a b,
-  gp_less feat_gen call "sorted" "i" "j" canon_ff_less st (ff_mk a) (ff_mk b) = Some (gp_str_lt (fst a) (fst b)).
+  gpp_less feat_gen call "sorted" "i" "j" canon_ff_less st (ff_mk a) (ff_mk b) = Some (gpp_str_lt (fst a) (fst b)).
 Proof. intros. reflexivity. Qed.
 
 (* ---- lists of names: sorted permutations are unique ------------------------------------------------------------------------------ *)
@@ -215,38 +215,38 @@ Qed.
 Lemma sorted_perm_is_sort : forall l k, sortedb l = true -> Permutation l k -> l = GenOrder.sort k.
 Proof. intros l k Hs Hp. rewrite <- (sort_of_sorted l Hs). apply sort_perm. exact Hp. Qed.
 
-Lemma gp_map_get_none : forall n (m : gpmap), gp_map_get n m = None <-> ~ In n (map fst m).
+Lemma gpp_map_get_none : forall n (m : gpmap), gpp_map_get n m = None <-> ~ In n (map fst m).
 Proof.
-  intros n m. rewrite <- existsb_name_In. pose proof (gp_map_get_keys n m) as [H1 H2].
-  destruct (gp_map_get n m) as [g|] eqn:E.
+  intros n m. rewrite <- existsb_name_In. pose proof (gpp_map_get_keys n m) as [H1 H2].
+  destruct (gpp_map_get n m) as [g|] eqn:E.
   - split; [discriminate|]. intro Hn. exfalso. apply Hn. apply H1. discriminate.
   - split; [|reflexivity]. intros _ Hx. apply H2 in Hx. apply Hx. reflexivity.
 Qed.
-Lemma gp_map_get_in : forall (m : gpmap) k v, NoDup (map fst m) -> In (k, v) m -> gp_map_get k m = Some v.
+Lemma gpp_map_get_in : forall (m : gpmap) k v, NoDup (map fst m) -> In (k, v) m -> gpp_map_get k m = Some v.
 Proof.
-  unfold gp_map_get. induction m as [|[k' v'] m IH]; intros k v Hn Hi; [destruct Hi|].
-  fold gp_map_get in *. simpl in Hn. inversion Hn as [|? ? Hnot Hn']; subst. destruct Hi as [Hi|Hi].
+  unfold gpp_map_get. induction m as [|[k' v'] m IH]; intros k v Hn Hi; [destruct Hi|].
+  fold gpp_map_get in *. simpl in Hn. inversion Hn as [|? ? Hnot Hn']; subst. destruct Hi as [Hi|Hi].
   - inversion Hi; subst. simpl. rewrite name_eqb_refl. reflexivity.
   - simpl. destruct (name_eqb k k') eqn:Ek.
     + apply name_eqb_eq in Ek. subst. exfalso. apply Hnot. apply in_map_iff. exists (k', v). auto.
     + apply IH; assumption.
 Qed.
-Lemma gp_map_get_some_in : forall (m : gpmap) k v, gp_map_get k m = Some v -> exists k', name_eqb k k' = true /\ In (k', v) m.
+Lemma gpp_map_get_some_in : forall (m : gpmap) k v, gpp_map_get k m = Some v -> exists k', name_eqb k k' = true /\ In (k', v) m.
 Proof.
-  unfold gp_map_get. induction m as [|[k' v'] m IH]; intros k v H; [discriminate|]. fold gp_map_get in *. simpl in H.
+  unfold gpp_map_get. induction m as [|[k' v'] m IH]; intros k v H; [discriminate|]. fold gpp_map_get in *. simpl in H.
   destruct (name_eqb k k') eqn:Ek.
   - inversion H; subst. exists k'. split; [exact Ek | left; reflexivity].
   - destruct (IH k v H) as [k2 [H1 H2]]. exists k2. split; [exact H1 | right; exact H2].
 Qed.
-Lemma gp_map_set_keys : forall n v (m : gpmap),
-  map fst (gp_map_set n v m) = if existsb (name_eqb n) (map fst m) then map fst m else map fst m ++ [n].
+Lemma gpp_map_set_keys : forall n v (m : gpmap),
+  map fst (gpp_map_set n v m) = if existsb (name_eqb n) (map fst m) then map fst m else map fst m ++ [n].
 Proof.
-  unfold gp_map_set. induction m as [|[k w] m IH]; [reflexivity|]. fold gp_map_set in *. simpl.
+  unfold gpp_map_set. induction m as [|[k w] m IH]; [reflexivity|]. fold gpp_map_set in *. simpl.
   destruct (name_eqb n k) eqn:Ek; simpl; [reflexivity|]. rewrite IH. destruct (existsb (name_eqb n) (map fst m)); reflexivity.
 Qed.
-Lemma gp_map_set_in : forall n v (m : gpmap) k w, In (k, w) (gp_map_set n v m) -> In (k, w) m \/ (k = n /\ w = v).
+Lemma gpp_map_set_in : forall n v (m : gpmap) k w, In (k, w) (gpp_map_set n v m) -> In (k, w) m \/ (k = n /\ w = v).
 Proof.
-  unfold gp_map_set. induction m as [|[k' w'] m IH]; intros k w H; fold gp_map_set in *.
+  unfold gpp_map_set. induction m as [|[k' w'] m IH]; intros k w H; fold gpp_map_set in *.
   - destruct H as [H|[]]. inversion H; subst. right; auto.
   - simpl in H. destruct (name_eqb n k') eqn:Ek.
     + destruct H as [H|H]; [|left; right; exact H]. inversion H; subst. apply name_eqb_eq in Ek. subst. right; auto.
@@ -264,21 +264,21 @@ Proof.
     + apply name_eqb_eq in E2; subst. split; [discriminate | intro H; exfalso; apply H; right; left; reflexivity].
     + split; [|reflexivity]. intros _ [H|[H|[]]]; subst; rewrite name_eqb_refl in *; discriminate.
 Qed.
-Lemma reg_lookup : forall (reg : gpmap) n, Permutation (map fst reg) (map fst registry) -> (gp_map_get n reg = None <-> lookup n = None).
+Lemma reg_lookup : forall (reg : gpmap) n, Permutation (map fst reg) (map fst registry) -> (gpp_map_get n reg = None <-> lookup n = None).
 Proof.
-  intros reg n Hp. rewrite gp_map_get_none, lookup_none. split; intros H Hi; apply H.
+  intros reg n Hp. rewrite gpp_map_get_none, lookup_none. split; intros H Hi; apply H.
   - apply Permutation_in with (l := map fst registry); [apply Permutation_sym; exact Hp | exact Hi].
   - apply Permutation_in with (l := map fst reg); assumption.
 Qed.
 Lemma registry_nodup : NoDup (map fst registry).
 Proof. apply nodupb_NoDup. reflexivity. Qed.
 
-Definition req_inv (reg m : gpmap) : Prop := NoDup (map fst m) /\ forall k v, In (k, v) m -> gp_map_get k reg = Some v.
+Definition req_inv (reg m : gpmap) : Prop := NoDup (map fst m) /\ forall k v, In (k, v) m -> gpp_map_get k reg = Some v.
 
 Lemma req_loop_spec : forall reg, Permutation (map fst reg) (map fst registry) -> forall names m acc,
   req_inv reg m -> Permutation (map fst m) acc ->
   match req_loop reg names m with
-  | ReqErr n _ => required names acc = None /\ gp_first_unknown names = Some n
+  | ReqErr n _ => required names acc = None /\ gpp_first_unknown names = Some n
   | ReqAll _ => required names acc = Some (map fst registry)
   | ReqDone m' => req_inv reg m' /\ exists acc', required names acc = Some acc' /\ Permutation (map fst m') acc'
   end.
@@ -286,64 +286,64 @@ Proof.
   intros reg Hreg. induction names as [|n names IH]; intros m acc Hinv Hp; simpl.
   - split; [exact Hinv|]. exists acc. split; [reflexivity | exact Hp].
   - destruct (name_eqb n s_all) eqn:En; [reflexivity|].
-    destruct (gp_map_get n reg) as [v|] eqn:Ev.
+    destruct (gpp_map_get n reg) as [v|] eqn:Ev.
     + assert (Hl : lookup n <> None) by (intro Hl; apply (reg_lookup reg n Hreg) in Hl; congruence).
       destruct (lookup n) as [g|] eqn:El; [|congruence].
-      assert (Hinv' : req_inv reg (gp_map_set n v m)).
+      assert (Hinv' : req_inv reg (gpp_map_set n v m)).
       { destruct Hinv as [Hnd Hval]. split.
-        - rewrite gp_map_set_keys. destruct (existsb (name_eqb n) (map fst m)) eqn:Ex; [exact Hnd|].
+        - rewrite gpp_map_set_keys. destruct (existsb (name_eqb n) (map fst m)) eqn:Ex; [exact Hnd|].
           apply NoDup_rev in Hnd. rewrite <- (rev_involutive (map fst m ++ [n])). apply NoDup_rev. rewrite rev_app_distr. simpl.
           constructor; [|exact Hnd]. rewrite <- in_rev. intro Hi. apply existsb_name_In in Hi. congruence.
-        - intros k w Hi. apply gp_map_set_in in Hi. destruct Hi as [Hi|[-> ->]]; [apply Hval; exact Hi | exact Ev]. }
-      assert (Hp' : Permutation (map fst (gp_map_set n v m)) (add_name n acc)).
-      { rewrite gp_map_set_keys. unfold add_name.
+        - intros k w Hi. apply gpp_map_set_in in Hi. destruct Hi as [Hi|[-> ->]]; [apply Hval; exact Hi | exact Ev]. }
+      assert (Hp' : Permutation (map fst (gpp_map_set n v m)) (add_name n acc)).
+      { rewrite gpp_map_set_keys. unfold add_name.
         assert (Hx : existsb (name_eqb n) (map fst m) = existsb (name_eqb n) acc).
         { destruct (existsb (name_eqb n) (map fst m)) eqn:E1; destruct (existsb (name_eqb n) acc) eqn:E2; auto.
           - apply existsb_name_In in E1. apply (Permutation_in _ Hp) in E1. apply existsb_name_In in E1. congruence.
           - apply existsb_name_In in E2. apply (Permutation_in _ (Permutation_sym Hp)) in E2. apply existsb_name_In in E2. congruence. }
         rewrite Hx. destruct (existsb (name_eqb n) acc); [exact Hp|].
         apply Permutation_trans with (l' := n :: map fst m); [apply Permutation_sym; apply Permutation_cons_append | constructor; exact Hp]. }
-      specialize (IH (gp_map_set n v m) (add_name n acc) Hinv' Hp').
-      destruct (req_loop reg names (gp_map_set n v m)); exact IH.
+      specialize (IH (gpp_map_set n v m) (add_name n acc) Hinv' Hp').
+      destruct (req_loop reg names (gpp_map_set n v m)); exact IH.
     + apply (reg_lookup reg n Hreg) in Ev. rewrite Ev. split; reflexivity.
 Qed.
 
 (* sort.Slice on the (name, feature) pairs of a map with distinct keys: the pairs in ascending order of name *)
 Lemma ff_sorted_result : forall sorter feat_gen call st (R es : gpmap),
-  gp_sorter_ok sorter -> NoDup (map fst R) -> Permutation es R ->
-  forallb (fun a => forallb (fun b => match gp_less feat_gen call "sorted" "i" "j" canon_ff_less st a b with Some _ => true | None => false end)
+  gpp_sorter_ok sorter -> NoDup (map fst R) -> Permutation es R ->
+  forallb (fun a => forallb (fun b => match gpp_less feat_gen call "sorted" "i" "j" canon_ff_less st a b with Some _ => true | None => false end)
                             (map ff_mk es)) (map ff_mk es) = true /\
-  exists es', sorter (fun a b => match gp_less feat_gen call "sorted" "i" "j" canon_ff_less st a b with Some r => r | None => false end) (map ff_mk es)
+  exists es', sorter (fun a b => match gpp_less feat_gen call "sorted" "i" "j" canon_ff_less st a b with Some r => r | None => false end) (map ff_mk es)
               = map ff_mk es' /\ Permutation es' R /\ map fst es' = GenOrder.sort (map fst R).
 Proof.
   intros sorter feat_gen call st R es Hs Hnd Hp. split.
   - apply forallb_forall. intros a Ha. apply forallb_forall. intros b Hb.
     apply in_map_iff in Ha. destruct Ha as [ea [<- _]]. apply in_map_iff in Hb. destruct Hb as [eb [<- _]]. rewrite ff_less. reflexivity.
-  - set (lessf := fun a b => match gp_less feat_gen call "sorted" "i" "j" canon_ff_less st a b with Some r => r | None => false end).
+  - set (lessf := fun a b => match gpp_less feat_gen call "sorted" "i" "j" canon_ff_less st a b with Some r => r | None => false end).
     destruct (Hs lessf (map ff_mk es)) as [Hperm Hsorted].
     assert (Hnd_es : NoDup (map fst es)).
     { apply Permutation_NoDup with (l := map fst R); [apply Permutation_map; apply Permutation_sym; exact Hp | exact Hnd]. }
-    assert (Hless : forall ea eb, lessf (ff_mk ea) (ff_mk eb) = gp_str_lt (fst ea) (fst eb)).
+    assert (Hless : forall ea eb, lessf (ff_mk ea) (ff_mk eb) = gpp_str_lt (fst ea) (fst eb)).
     { intros ea eb. unfold lessf. rewrite ff_less. reflexivity. }
-    assert (Hst : gp_strict_total lessf (map ff_mk es)).
+    assert (Hst : gpp_strict_total lessf (map ff_mk es)).
     { split; [|split].
-      - intros a Ha. apply in_map_iff in Ha. destruct Ha as [ea [<- _]]. rewrite Hless. unfold gp_str_lt. rewrite leb_refl. reflexivity.
+      - intros a Ha. apply in_map_iff in Ha. destruct Ha as [ea [<- _]]. rewrite Hless. unfold gpp_str_lt. rewrite leb_refl. reflexivity.
       - intros a b c0 Ha Hb Hc. apply in_map_iff in Ha. destruct Ha as [ea [<- _]]. apply in_map_iff in Hb. destruct Hb as [eb [<- _]].
-        apply in_map_iff in Hc. destruct Hc as [ec [<- _]]. rewrite !Hless. unfold gp_str_lt. intros H1 H2.
+        apply in_map_iff in Hc. destruct Hc as [ec [<- _]]. rewrite !Hless. unfold gpp_str_lt. intros H1 H2.
         apply negb_true_iff in H1. apply negb_true_iff in H2. apply negb_true_iff.
         destruct (name_leb (fst ec) (fst ea)) eqn:E3; [|reflexivity].
         (* c <= a, and a <= b (from not b <= a), so c <= b: contradiction with H2 *)
         assert (Hab : name_leb (fst ea) (fst eb) = true) by (destruct (leb_total (fst ea) (fst eb)); congruence).
         rewrite (leb_trans _ _ _ E3 Hab) in H2. discriminate.
       - intros a b Ha Hb Hne. apply in_map_iff in Ha. destruct Ha as [ea [<- Hia]]. apply in_map_iff in Hb. destruct Hb as [eb [<- Hib]].
-        rewrite !Hless. unfold gp_str_lt.
+        rewrite !Hless. unfold gpp_str_lt.
         destruct (name_leb (fst eb) (fst ea)) eqn:E1; [|left; reflexivity].
         destruct (name_leb (fst ea) (fst eb)) eqn:E2; [|right; reflexivity].
         exfalso. apply Hne. assert (Hk : fst ea = fst eb) by (apply leb_antisym; assumption).
         assert (ea = eb).
         { destruct ea as [ka va], eb as [kb vb]. simpl in Hk. subst kb. f_equal.
-          assert (H1 : gp_map_get ka es = Some va) by (apply gp_map_get_in; assumption).
-          assert (H2 : gp_map_get ka es = Some vb) by (apply gp_map_get_in; assumption). congruence. }
+          assert (H1 : gpp_map_get ka es = Some va) by (apply gpp_map_get_in; assumption).
+          assert (H2 : gpp_map_get ka es = Some vb) by (apply gpp_map_get_in; assumption). congruence. }
         subst. reflexivity. }
     specialize (Hsorted Hst). fold lessf.
     destruct (Permutation_map_inv ff_mk _ Hperm) as [es' [Heq Hp']]. exists es'. split; [exact Heq|].
@@ -355,32 +355,32 @@ Proof.
     destruct es' as [|e2 es'']; [reflexivity|].
     change (name_leb (fst e1) (fst e2) && sortedb (map fst (e2 :: es'')) = true).
     rewrite (IH Hs'). rewrite andb_true_r. simpl in Hall. inversion Hall as [|? ? H12 _]; subst.
-    rewrite Hless in H12. unfold gp_str_lt in H12. apply negb_false_iff in H12. exact H12.
+    rewrite Hless in H12. unfold gpp_str_lt in H12. apply negb_false_iff in H12. exact H12.
 Qed.
 
 Lemma map_snd_values : forall (reg R es' : gpmap), NoDup (map fst R) -> Permutation es' R ->
-  (forall k v, In (k, v) R -> gp_map_get k reg = Some v) -> map snd es' = map (gp_feat_value reg) (map fst es').
+  (forall k v, In (k, v) R -> gpp_map_get k reg = Some v) -> map snd es' = map (gpp_feat_value reg) (map fst es').
 Proof.
-  intros reg R es' Hnd Hp Hval. rewrite map_map. apply map_ext_in. intros [k v] Hi. simpl. unfold gp_feat_value.
+  intros reg R es' Hnd Hp Hval. rewrite map_map. apply map_ext_in. intros [k v] Hi. simpl. unfold gpp_feat_value.
   rewrite (Hval k v); [reflexivity|]. apply Permutation_in with (l := es'); assumption.
 Qed.
 
-Arguments gp_less : simpl never.
+Arguments gpp_less : simpl never.
 
 Section FF3.
   Variable perm : gpmap -> gpmap.
   Variable sorter : (gpvalue -> gpvalue -> bool) -> list gpvalue -> list gpvalue.
   Variable feat_gen : gpvalue -> bool.
   Variable call : gname -> list gpvalue -> gpstate -> gpres (list gpvalue).
-  Hypothesis Hperm : gp_perm_ok perm.
-  Hypothesis Hsort : gp_sorter_ok sorter.
+  Hypothesis Hperm : gpp_perm_ok perm.
+  Hypothesis Hsort : gpp_sorter_ok sorter.
   Variables (G : gpframe) (MM : list gpmap) (F : list pfile) (O : list pout) (P : list (name * name)) (E : option (gname * list name)).
   Variable V : gpvalue.
 
   (* from `type namefeat struct` to the return *)
-  Lemma ff_tail : forall cc R, gp_heap_get MM cc = Some R -> NoDup (map fst R) ->
+  Lemma ff_tail : forall cc R, gpp_heap_get MM cc = Some R -> NoDup (map fst R) ->
     exists es' en,
-      gp_block perm sorter feat_gen call
+      gpp_block perm sorter feat_gen call
         [ GpsTypeStruct "namefeat" [("name"%gname, "string"%gname); ("feat"%gname, "Feature"%gname)];
           GpsVar "sorted" "[]namefeat";
           GpsRange "name" "feat" (GpxVar "required") canon_ff_required_body;
@@ -388,36 +388,36 @@ Section FF3.
           GpsVar "features" "[]Feature";
           GpsRange "_" "sp" (GpxVar "sorted") canon_ff_sorted_body;
           GpsReturn [GpxVar "features"; GpxNil] ]
-        {| gp_env := [[("required"%gname, GpvMap (Some cc)); ("featureNames"%gname, V)]]; gp_glob := G; gp_maps := MM; gp_files := F;
-           gp_outs := O; gp_params := P; gp_err := E |}
+        {| gpp_env := [[("required"%gname, GpvMap (Some cc)); ("featureNames"%gname, V)]]; gpp_glob := G; gpp_maps := MM; gpp_files := F;
+           gpp_outs := O; gpp_params := P; gpp_err := E |}
       = GpOk (GsgRet [GpvSlice (map snd es'); GpvNil])
-             {| gp_env := en; gp_glob := G; gp_maps := MM; gp_files := F; gp_outs := O; gp_params := P; gp_err := E |}
+             {| gpp_env := en; gpp_glob := G; gpp_maps := MM; gpp_files := F; gpp_outs := O; gpp_params := P; gpp_err := E |}
       /\ Permutation es' R /\ map fst es' = GenOrder.sort (map fst R).
   Proof.
     intros cc R HR Hnd.
     exec_head ltac:(ss; reflexivity).
     exec_head ltac:(ss; reflexivity).
-    rewrite gp_block_cons. rewrite gp_exec_range. ss. rewrite HR. rewrite ff_required_loop. ss.
-    match goal with |- context [gp_block _ _ _ _ _ ?st] =>
+    rewrite gpp_block_cons. rewrite gpp_exec_range. ss. rewrite HR. rewrite ff_required_loop. ss.
+    match goal with |- context [gpp_block _ _ _ _ _ ?st] =>
       destruct (ff_sorted_result sorter feat_gen call st R (perm R) Hsort Hnd (Hperm R)) as [Hfa [es' [Hsorted [Hp Hkeys]]]] end.
     exists es'. eexists.
     exec_head ltac:(ss; rewrite Hfa; rewrite Hsorted; ss; reflexivity).
     exec_head ltac:(ss; reflexivity).
-    rewrite gp_block_cons. rewrite gp_exec_range. ss. rewrite ff_sorted_loop. ss.
+    rewrite gpp_block_cons. rewrite gpp_exec_range. ss. rewrite ff_sorted_loop. ss.
     exec_head ltac:(ss; reflexivity).
     split; [reflexivity | split; assumption].
   Qed.
 End FF3.
 
-Lemma gp_call_S : forall perm sorter feat_gen prog fuel f args st,
-  gp_call perm sorter feat_gen prog (S fuel) f args st =
-  match gp_find_decl prog f with
+Lemma gpp_call_S : forall perm sorter feat_gen prog fuel f args st,
+  gpp_call perm sorter feat_gen prog (S fuel) f args st =
+  match gpp_find_decl prog f with
   | Some (GpdFunc _ params results body) =>
     if Nat.eqb (length params) (length args) then
-      match gp_block perm sorter feat_gen (gp_call perm sorter feat_gen prog fuel) body (gp_with_env st [gp_zip (map fst params) args]) with
+      match gpp_block perm sorter feat_gen (gpp_call perm sorter feat_gen prog fuel) body (gpp_with_env st [gpp_zip (map fst params) args]) with
       | GpOk (GsgRet vs) st' =>
-        if Nat.eqb (length vs) (length results) then GpOk (gp_coerce_all results vs) (gp_with_env st' (gp_env st)) else GpStuck
-      | GpOk GsgNext st' => match results with [] => GpOk [] (gp_with_env st' (gp_env st)) | _ :: _ => GpStuck end
+        if Nat.eqb (length vs) (length results) then GpOk (gpp_coerce_all results vs) (gpp_with_env st' (gpp_env st)) else GpStuck
+      | GpOk GsgNext st' => match results with [] => GpOk [] (gpp_with_env st' (gpp_env st)) | _ :: _ => GpStuck end
       | GpOk _ _ => GpStuck
       | GpPanic => GpPanic | GpExit => GpExit | GpFuel => GpFuel | GpStuck => GpStuck
       end
@@ -429,84 +429,84 @@ Proof. reflexivity. Qed.
 Lemma find_features_prog : find_features_prog_stmt.
 Proof.
   intros perm sorter feat_gen fuel st reg names Hperm Hsort [c [HG HMc]] Hreg.
-  assert (HM : forall m, gp_heap_get (gp_maps st ++ [m]) c = Some reg) by (intro m; apply gp_heap_get_snoc_old; exact HMc).
+  assert (HM : forall m, gpp_heap_get (gpp_maps st ++ [m]) c = Some reg) by (intro m; apply gpp_heap_get_snoc_old; exact HMc).
   assert (Hregnd : NoDup (map fst reg)).
   { apply Permutation_NoDup with (l := map fst registry); [apply Permutation_sym; exact Hreg | exact registry_nodup]. }
-  rewrite gp_call_S. set (call := gp_call perm sorter feat_gen canon_genprog fuel).
+  rewrite gpp_call_S. set (call := gpp_call perm sorter feat_gen canon_genprog fuel).
   ss. unfold canon_findFeatures_body.
   exec_head ltac:(ss; reflexivity).
-  rewrite gp_block_cons. rewrite gp_exec_range. ss.
-  rewrite (ff_names_loop perm sorter feat_gen call (gp_glob st) (gp_maps st) (gp_files st) (gp_outs st) (gp_params st) (gp_err st) _ c reg HG HM).
+  rewrite gpp_block_cons. rewrite gpp_exec_range. ss.
+  rewrite (ff_names_loop perm sorter feat_gen call (gpp_glob st) (gpp_maps st) (gpp_files st) (gpp_outs st) (gpp_params st) (gpp_err st) _ c reg HG HM).
   assert (Hinv0 : req_inv reg []) by (split; [constructor | intros k v []]).
   pose proof (req_loop_spec reg Hreg names [] [] Hinv0 (Permutation_refl _)) as Hspec.
-  unfold gp_find_features_spec, find_features.
+  unfold gpp_find_features_spec, find_features.
   destruct (req_loop reg names []) as [n m'|m'|m'].
   - destruct Hspec as [Hreq Hunk]. rewrite Hreq, Hunk. exists m'. reflexivity.
   - rewrite Hspec. ss.
-    destruct (ff_tail perm sorter feat_gen call Hperm Hsort (gp_glob st) (gp_maps st ++ [m']) (gp_files st) (gp_outs st)
-                      (gp_params st) (gp_err st) (GpvSlice (map GpvStr names)) c reg (HM m') Hregnd) as [es' [en [Hrun [Hp Hkeys]]]].
+    destruct (ff_tail perm sorter feat_gen call Hperm Hsort (gpp_glob st) (gpp_maps st ++ [m']) (gpp_files st) (gpp_outs st)
+                      (gpp_params st) (gpp_err st) (GpvSlice (map GpvStr names)) c reg (HM m') Hregnd) as [es' [en [Hrun [Hp Hkeys]]]].
     rewrite Hrun. ss. exists m'. f_equal. f_equal. f_equal.
-    rewrite (map_snd_values reg reg es' Hregnd Hp); [|intros k v Hi; apply gp_map_get_in; assumption].
+    rewrite (map_snd_values reg reg es' Hregnd Hp); [|intros k v Hi; apply gpp_map_get_in; assumption].
     rewrite Hkeys. rewrite (sort_perm _ _ Hreg). reflexivity.
   - destruct Hspec as [[Hnd Hval] [acc' [Hreq Hpa]]]. rewrite Hreq. ss.
-    destruct (ff_tail perm sorter feat_gen call Hperm Hsort (gp_glob st) (gp_maps st ++ [m']) (gp_files st) (gp_outs st)
-                      (gp_params st) (gp_err st) (GpvSlice (map GpvStr names)) (length (gp_maps st)) m' (gp_heap_get_snoc_new _ _) Hnd) as [es' [en [Hrun [Hp Hkeys]]]].
+    destruct (ff_tail perm sorter feat_gen call Hperm Hsort (gpp_glob st) (gpp_maps st ++ [m']) (gpp_files st) (gpp_outs st)
+                      (gpp_params st) (gpp_err st) (GpvSlice (map GpvStr names)) (length (gpp_maps st)) m' (gpp_heap_get_snoc_new _ _) Hnd) as [es' [en [Hrun [Hp Hkeys]]]].
     rewrite Hrun. ss. exists m'. f_equal. f_equal. f_equal.
     rewrite (map_snd_values reg m' es' Hnd Hp Hval). rewrite Hkeys. rewrite (sort_perm _ _ Hpa). reflexivity.
 Qed.
 
 (* ---- the object tree: paths ------------------------------------------------------------------------------------------------------ *)
-Lemma gp_list_set_nth : forall {A} (l : list A) k x y, nth_error l k = Some y -> nth_error (gp_list_set k x l) k = Some x.
+Lemma gpp_list_set_nth : forall {A} (l : list A) k x y, nth_error l k = Some y -> nth_error (gpp_list_set k x l) k = Some x.
 Proof. induction l as [|a l IH]; intros [|k] x y H; simpl in *; try discriminate; auto. eapply IH; eauto. Qed.
-Lemma gp_list_set_other : forall {A} (l : list A) k j x, j <> k -> nth_error (gp_list_set k x l) j = nth_error l j.
+Lemma gpp_list_set_other : forall {A} (l : list A) k j x, j <> k -> nth_error (gpp_list_set k x l) j = nth_error l j.
 Proof. induction l as [|a l IH]; intros [|k] [|j] x H; simpl; auto; try congruence. Qed.
-Lemma gp_list_set_set : forall {A} (l : list A) k x y, gp_list_set k y (gp_list_set k x l) = gp_list_set k y l.
+Lemma gpp_list_set_set : forall {A} (l : list A) k x y, gpp_list_set k y (gpp_list_set k x l) = gpp_list_set k y l.
 Proof. induction l as [|a l IH]; intros [|k] x y; simpl; auto. rewrite IH. reflexivity. Qed.
-Lemma gp_list_set_id : forall {A} (l : list A) k x, nth_error l k = Some x -> gp_list_set k x l = l.
+Lemma gpp_list_set_id : forall {A} (l : list A) k x, nth_error l k = Some x -> gpp_list_set k x l = l.
 Proof. induction l as [|a l IH]; intros [|k] x H; simpl in *; try discriminate; auto; [congruence | rewrite IH; auto]. Qed.
-Lemma gp_list_set_app : forall {A} (a : list A) x y b, gp_list_set (length a) y (a ++ x :: b) = a ++ y :: b.
+Lemma gpp_list_set_app : forall {A} (a : list A) x y b, gpp_list_set (length a) y (a ++ x :: b) = a ++ y :: b.
 Proof. induction a as [|z a IH]; intros; simpl; [reflexivity | rewrite IH; reflexivity]. Qed.
 Lemma nth_error_app_mid : forall {A} (a : list A) x b, nth_error (a ++ x :: b) (length a) = Some x.
 Proof. intros. rewrite nth_error_app2 by lia. rewrite Nat.sub_diag. reflexivity. Qed.
 
-Lemma forest_get_set_same : forall p ms t t', gp_forest_get ms p = Some t -> gp_forest_get (gp_forest_set ms p t') p = Some t'.
+Lemma forest_get_set_same : forall p ms t t', gpp_forest_get ms p = Some t -> gpp_forest_get (gpp_forest_set ms p t') p = Some t'.
 Proof.
   induction p as [|i p IH]; intros ms t t' H; [discriminate|]. simpl in *.
   destruct (nth_error ms i) as [m|] eqn:Em; [|discriminate].
   destruct p as [|j p'].
-  - rewrite (gp_list_set_nth ms i t' m Em). reflexivity.
-  - rewrite (gp_list_set_nth ms i _ m Em). simpl pm_msgs. apply (IH _ t). exact H.
+  - rewrite (gpp_list_set_nth ms i t' m Em). reflexivity.
+  - rewrite (gpp_list_set_nth ms i _ m Em). simpl pm_msgs. apply (IH _ t). exact H.
 Qed.
 Lemma forest_set_cons2 : forall ms i j p' m',
-  gp_forest_set ms (i :: j :: p') m' =
+  gpp_forest_set ms (i :: j :: p') m' =
   match nth_error ms i with
   | None => ms
-  | Some m => gp_list_set i (PMsg (pm_full m) (pm_mapentry m) (pm_fields m) (pm_oneofs m) (gp_forest_set (pm_msgs m) (j :: p') m')) ms
+  | Some m => gpp_list_set i (GpMsg (pm_full m) (pm_mapentry m) (pm_fields m) (pm_oneofs m) (gpp_forest_set (pm_msgs m) (j :: p') m')) ms
   end.
 Proof. reflexivity. Qed.
 Lemma forest_get_cons2 : forall ms i j p',
-  gp_forest_get ms (i :: j :: p') = match nth_error ms i with None => None | Some m => gp_forest_get (pm_msgs m) (j :: p') end.
+  gpp_forest_get ms (i :: j :: p') = match nth_error ms i with None => None | Some m => gpp_forest_get (pm_msgs m) (j :: p') end.
 Proof. reflexivity. Qed.
-Lemma forest_set_set_same : forall p ms a b, gp_forest_set (gp_forest_set ms p a) p b = gp_forest_set ms p b.
+Lemma forest_set_set_same : forall p ms a b, gpp_forest_set (gpp_forest_set ms p a) p b = gpp_forest_set ms p b.
 Proof.
   induction p as [|i p IH]; intros ms a b; [reflexivity|].
   destruct p as [|j p'].
   - simpl. destruct (nth_error ms i) as [m|] eqn:Em; [|rewrite Em; reflexivity].
-    rewrite (gp_list_set_nth ms i a m Em). apply gp_list_set_set.
+    rewrite (gpp_list_set_nth ms i a m Em). apply gpp_list_set_set.
   - rewrite !forest_set_cons2. destruct (nth_error ms i) as [m|] eqn:Em; [|rewrite Em; reflexivity].
-    rewrite (gp_list_set_nth ms i _ m Em). cbn [pm_full pm_mapentry pm_fields pm_oneofs pm_msgs].
-    rewrite gp_list_set_set. rewrite IH. reflexivity.
+    rewrite (gpp_list_set_nth ms i _ m Em). cbn [pm_full pm_mapentry pm_fields pm_oneofs pm_msgs].
+    rewrite gpp_list_set_set. rewrite IH. reflexivity.
 Qed.
-Lemma forest_set_get_id : forall p ms t, gp_forest_get ms p = Some t -> gp_forest_set ms p t = ms.
+Lemma forest_set_get_id : forall p ms t, gpp_forest_get ms p = Some t -> gpp_forest_set ms p t = ms.
 Proof.
   induction p as [|i p IH]; intros ms t H; [reflexivity|]. simpl in *.
   destruct (nth_error ms i) as [m|] eqn:Em; [|reflexivity].
   destruct p as [|j p'].
-  - inversion H; subst. apply gp_list_set_id. exact Em.
-  - rewrite (IH _ _ H). destruct m. simpl. apply gp_list_set_id. exact Em.
+  - inversion H; subst. apply gpp_list_set_id. exact Em.
+  - rewrite (IH _ _ H). destruct m. simpl. apply gpp_list_set_id. exact Em.
 Qed.
 Lemma forest_get_child : forall p ms k, p <> [] ->
-  gp_forest_get ms (p ++ [k]) = match gp_forest_get ms p with Some m => nth_error (pm_msgs m) k | None => None end.
+  gpp_forest_get ms (p ++ [k]) = match gpp_forest_get ms p with Some m => nth_error (pm_msgs m) k | None => None end.
 Proof.
   induction p as [|i p IH]; intros ms k Hne; [congruence|]. simpl.
   destruct (nth_error ms i) as [m|] eqn:Em; [|reflexivity].
@@ -514,9 +514,9 @@ Proof.
   - simpl. destruct (nth_error (pm_msgs m) k); reflexivity.
   - change ((j :: p') ++ [k]) with (j :: (p' ++ [k])). change (j :: p' ++ [k]) with ((j :: p') ++ [k]). apply IH. discriminate.
 Qed.
-Lemma forest_set_child : forall p ms k m c c', gp_forest_get ms p = Some m -> nth_error (pm_msgs m) k = Some c ->
-  gp_forest_set ms (p ++ [k]) c' =
-  gp_forest_set ms p (PMsg (pm_full m) (pm_mapentry m) (pm_fields m) (pm_oneofs m) (gp_list_set k c' (pm_msgs m))).
+Lemma forest_set_child : forall p ms k m c c', gpp_forest_get ms p = Some m -> nth_error (pm_msgs m) k = Some c ->
+  gpp_forest_set ms (p ++ [k]) c' =
+  gpp_forest_set ms p (GpMsg (pm_full m) (pm_mapentry m) (pm_fields m) (pm_oneofs m) (gpp_list_set k c' (pm_msgs m))).
 Proof.
   induction p as [|i p IH]; intros ms k m c c' H Hc; [discriminate|]. simpl in *.
   destruct (nth_error ms i) as [mi|] eqn:Em; [|discriminate].
@@ -526,32 +526,32 @@ Proof.
     rewrite (IH _ _ _ _ c' H Hc). reflexivity.
 Qed.
 
-Lemma get_set_same : forall fs i p t t', gp_get_msg fs i p = Some t -> gp_get_msg (gp_set_msg fs i p t') i p = Some t'.
+Lemma get_set_same : forall fs i p t t', gpp_get_msg fs i p = Some t -> gpp_get_msg (gpp_set_msg fs i p t') i p = Some t'.
 Proof.
-  unfold gp_get_msg, gp_set_msg. intros fs i p t t' H. destruct (nth_error fs i) as [f|] eqn:Ef; [|discriminate].
-  rewrite (gp_list_set_nth fs i _ f Ef). simpl. apply (forest_get_set_same _ _ t). exact H.
+  unfold gpp_get_msg, gpp_set_msg. intros fs i p t t' H. destruct (nth_error fs i) as [f|] eqn:Ef; [|discriminate].
+  rewrite (gpp_list_set_nth fs i _ f Ef). simpl. apply (forest_get_set_same _ _ t). exact H.
 Qed.
-Lemma set_set_same : forall fs i p a b, gp_set_msg (gp_set_msg fs i p a) i p b = gp_set_msg fs i p b.
+Lemma set_set_same : forall fs i p a b, gpp_set_msg (gpp_set_msg fs i p a) i p b = gpp_set_msg fs i p b.
 Proof.
-  unfold gp_set_msg. intros fs i p a b. destruct (nth_error fs i) as [f|] eqn:Ef; [|rewrite Ef; reflexivity].
-  rewrite (gp_list_set_nth fs i _ f Ef). unfold gp_file_with_msgs. simpl. rewrite gp_list_set_set. rewrite forest_set_set_same. reflexivity.
+  unfold gpp_set_msg. intros fs i p a b. destruct (nth_error fs i) as [f|] eqn:Ef; [|rewrite Ef; reflexivity].
+  rewrite (gpp_list_set_nth fs i _ f Ef). unfold gpp_file_with_msgs. simpl. rewrite gpp_list_set_set. rewrite forest_set_set_same. reflexivity.
 Qed.
-Lemma set_get_id : forall fs i p t, gp_get_msg fs i p = Some t -> gp_set_msg fs i p t = fs.
+Lemma set_get_id : forall fs i p t, gpp_get_msg fs i p = Some t -> gpp_set_msg fs i p t = fs.
 Proof.
-  unfold gp_get_msg, gp_set_msg. intros fs i p t H. destruct (nth_error fs i) as [f|] eqn:Ef; [|reflexivity].
-  rewrite (forest_set_get_id _ _ _ H). destruct f. unfold gp_file_with_msgs. simpl. apply gp_list_set_id. exact Ef.
+  unfold gpp_get_msg, gpp_set_msg. intros fs i p t H. destruct (nth_error fs i) as [f|] eqn:Ef; [|reflexivity].
+  rewrite (forest_set_get_id _ _ _ H). destruct f. unfold gpp_file_with_msgs. simpl. apply gpp_list_set_id. exact Ef.
 Qed.
 Lemma get_child : forall fs i p k, p <> [] ->
-  gp_get_msg fs i (p ++ [k]) = match gp_get_msg fs i p with Some m => nth_error (pm_msgs m) k | None => None end.
-Proof. unfold gp_get_msg. intros fs i p k Hne. destruct (nth_error fs i); [apply forest_get_child; exact Hne | reflexivity]. Qed.
-Lemma set_child : forall fs i p k m c c', gp_get_msg fs i p = Some m -> nth_error (pm_msgs m) k = Some c ->
-  gp_set_msg fs i (p ++ [k]) c' = gp_set_msg fs i p (PMsg (pm_full m) (pm_mapentry m) (pm_fields m) (pm_oneofs m) (gp_list_set k c' (pm_msgs m))).
+  gpp_get_msg fs i (p ++ [k]) = match gpp_get_msg fs i p with Some m => nth_error (pm_msgs m) k | None => None end.
+Proof. unfold gpp_get_msg. intros fs i p k Hne. destruct (nth_error fs i); [apply forest_get_child; exact Hne | reflexivity]. Qed.
+Lemma set_child : forall fs i p k m c c', gpp_get_msg fs i p = Some m -> nth_error (pm_msgs m) k = Some c ->
+  gpp_set_msg fs i (p ++ [k]) c' = gpp_set_msg fs i p (GpMsg (pm_full m) (pm_mapentry m) (pm_fields m) (pm_oneofs m) (gpp_list_set k c' (pm_msgs m))).
 Proof.
-  unfold gp_get_msg, gp_set_msg. intros fs i p k m c c' H Hc. destruct (nth_error fs i) as [f|]; [|discriminate].
+  unfold gpp_get_msg, gpp_set_msg. intros fs i p k m c c' H Hc. destruct (nth_error fs i) as [f|]; [|discriminate].
   rewrite (forest_set_child _ _ _ _ _ c' H Hc). reflexivity.
 Qed.
-Lemma get_msg_path_ne : forall fs i p t, gp_get_msg fs i p = Some t -> p <> [].
-Proof. unfold gp_get_msg. intros fs i p t H. destruct (nth_error fs i); [|discriminate]. destruct p; [discriminate | discriminate]. Qed.
+Lemma get_msg_path_ne : forall fs i p t, gpp_get_msg fs i p = Some t -> p <> [].
+Proof. unfold gpp_get_msg. intros fs i p t H. destruct (nth_error fs i); [|discriminate]. destruct p; [discriminate | discriminate]. Qed.
 
 (* ---- (b) rewriteMessageField ------------------------------------------------------------------------------------------------------- *)
 Lemma rewrite_field_reserved : forall g, is_reserved g = true -> rewrite_field g = g ++ [us].
@@ -566,40 +566,40 @@ Section RW.
   Variable call : gname -> list gpvalue -> gpstate -> gpres (list gpvalue).
   Variables (G : gpframe) (MM : list gpmap) (O : list pout) (P : list (name * name)) (E : option (gname * list name)).
   Variables (i : nat) (p : list nat) (q r : nat) (rm : gpmap).
-  Hypothesis HG : gp_glob_get "reservedFieldNames"%gname G = Some (GpvMap (Some r)).
-  Hypothesis HR : gp_heap_get MM r = Some rm.
-  Hypothesis Hrm : forall g, gp_map_get g rm <> None <-> is_reserved g = true.
+  Hypothesis HG : gpp_glob_get "reservedFieldNames"%gname G = Some (GpvMap (Some r)).
+  Hypothesis HR : gpp_heap_get MM r = Some rm.
+  Hypothesis Hrm : forall g, gpp_map_get g rm <> None <-> is_reserved g = true.
   Variables (full : name) (me : bool).
 
   Notation STR F :=
-    {| gp_env := [[("message"%gname, GpvMsg i p); ("processed"%gname, GpvMap (Some q))]]; gp_glob := G; gp_maps := MM; gp_files := F;
-       gp_outs := O; gp_params := P; gp_err := E |}.
+    {| gpp_env := [[("message"%gname, GpvMsg i p); ("processed"%gname, GpvMap (Some q))]]; gpp_glob := G; gpp_maps := MM; gpp_files := F;
+       gpp_outs := O; gpp_params := P; gpp_err := E |}.
 
   Ltac rws3 Hget Ef Es :=
-    ss; repeat (progress (rewrite ?HG, ?HR, ?Hget, ?Ef, ?Es, ?nth_error_app_mid, ?gp_list_set_app); ss); reflexivity.
+    ss; repeat (progress (rewrite ?HG, ?HR, ?Hget, ?Ef, ?Es, ?nth_error_app_mid, ?gpp_list_set_app); ss); reflexivity.
   Ltac rws Hget Ef := rws3 Hget Ef Ef.
 
   Lemma rw_fields_loop : forall os ms rest done_fs F j,
-    gp_get_msg F i p = Some (PMsg full me (done_fs ++ rest) os ms) ->
-    gp_loop (gp_range_step perm sorter feat_gen call "_" "field" canon_rw_fields_body)
-            (gp_index_items j (map (GpvField i p) (seq (length done_fs) (length rest)))) (STR F)
-    = GpOk GsgNext (STR (gp_set_msg F i p (PMsg full me (done_fs ++ map gp_rw_field rest) os ms))).
+    gpp_get_msg F i p = Some (GpMsg full me (done_fs ++ rest) os ms) ->
+    gpp_loop (gpp_range_step perm sorter feat_gen call "_" "field" canon_rw_fields_body)
+            (gpp_index_items j (map (GpvField i p) (seq (length done_fs) (length rest)))) (STR F)
+    = GpOk GsgNext (STR (gpp_set_msg F i p (GpMsg full me (done_fs ++ map gpp_rw_field rest) os ms))).
   Proof.
     intros os ms. induction rest as [|f rest IH]; intros done_fs F j Hget.
     - simpl. rewrite (set_get_id _ _ _ _ Hget). reflexivity.
-    - simpl length. simpl seq. simpl map. simpl gp_index_items. loop_head.
-      unfold gp_range_step at 1. unfold gp_scoped. unfold canon_rw_fields_body.
-      destruct (gp_map_get (pf_go f) rm) as [u|] eqn:Ef.
+    - simpl length. simpl seq. simpl map. simpl gpp_index_items. loop_head.
+      unfold gpp_range_step at 1. unfold gpp_scoped. unfold canon_rw_fields_body.
+      destruct (gpp_map_get (pf_go f) rm) as [u|] eqn:Ef.
       + assert (Hres : is_reserved (pf_go f) = true) by (apply Hrm; congruence).
         exec_head ltac:(rws Hget Ef).
         exec_head ltac:(rws Hget Ef).
         exec_head ltac:(rws Hget Ef).
         exec_head ltac:(rws Hget Ef).
-        rewrite gp_block_nil. ss. fold canon_rw_fields_body.
+        rewrite gpp_block_nil. ss. fold canon_rw_fields_body.
         change (pf_go f ++ ["_"%byte]) with (pf_go f ++ [us]). rewrite <- (rewrite_field_reserved _ Hres).
-        change {| pf_go := rewrite_field (pf_go f); pf_full := pf_full f |} with (gp_rw_field f).
-        replace (S (length done_fs)) with (length (done_fs ++ [gp_rw_field f])) by (rewrite app_length; simpl; lia).
-        rewrite (IH (done_fs ++ [gp_rw_field f])); [|rewrite <- app_assoc; apply (get_set_same _ _ _ _ _ Hget)].
+        change {| pf_go := rewrite_field (pf_go f); pf_full := pf_full f |} with (gpp_rw_field f).
+        replace (S (length done_fs)) with (length (done_fs ++ [gpp_rw_field f])) by (rewrite app_length; simpl; lia).
+        rewrite (IH (done_fs ++ [gpp_rw_field f])); [|rewrite <- app_assoc; apply (get_set_same _ _ _ _ _ Hget)].
         rewrite set_set_same. rewrite <- app_assoc. reflexivity.
       + assert (Hres : is_reserved (pf_go f) = false).
         { destruct (is_reserved (pf_go f)) eqn:Er; [|reflexivity]. apply Hrm in Er. congruence. }
@@ -609,36 +609,36 @@ Section RW.
         replace (S (length done_fs)) with (length (done_fs ++ [f])) by (rewrite app_length; simpl; lia).
         rewrite (IH (done_fs ++ [f])); [|rewrite <- app_assoc; exact Hget].
         rewrite <- app_assoc. simpl.
-        replace (gp_rw_field f) with f; [reflexivity|]. unfold gp_rw_field. rewrite (rewrite_field_free _ Hres). destruct f; reflexivity.
+        replace (gpp_rw_field f) with f; [reflexivity|]. unfold gpp_rw_field. rewrite (rewrite_field_free _ Hres). destruct f; reflexivity.
   Qed.
 
   Lemma rw_oneofs_loop : forall fs ms rest done_os F j,
-    gp_get_msg F i p = Some (PMsg full me fs (done_os ++ rest) ms) ->
-    gp_loop (gp_range_step perm sorter feat_gen call "_" "oneof" canon_rw_oneofs_body)
-            (gp_index_items j (map (GpvOneof i p) (seq (length done_os) (length rest)))) (STR F)
-    = GpOk GsgNext (STR (gp_set_msg F i p (PMsg full me fs (done_os ++ map gp_rw_oneof rest) ms))).
+    gpp_get_msg F i p = Some (GpMsg full me fs (done_os ++ rest) ms) ->
+    gpp_loop (gpp_range_step perm sorter feat_gen call "_" "oneof" canon_rw_oneofs_body)
+            (gpp_index_items j (map (GpvOneof i p) (seq (length done_os) (length rest)))) (STR F)
+    = GpOk GsgNext (STR (gpp_set_msg F i p (GpMsg full me fs (done_os ++ map gpp_rw_oneof rest) ms))).
   Proof.
     intros fs ms. induction rest as [|o rest IH]; intros done_os F j Hget.
     - simpl. rewrite (set_get_id _ _ _ _ Hget). reflexivity.
-    - simpl length. simpl seq. simpl map. simpl gp_index_items. loop_head.
-      unfold gp_range_step at 1. unfold gp_scoped. unfold canon_rw_oneofs_body.
-      destruct (gp_map_get (po_go o) rm) as [u|] eqn:Ef; [destruct (po_syn o) eqn:Esyn|].
+    - simpl length. simpl seq. simpl map. simpl gpp_index_items. loop_head.
+      unfold gpp_range_step at 1. unfold gpp_scoped. unfold canon_rw_oneofs_body.
+      destruct (gpp_map_get (po_go o) rm) as [u|] eqn:Ef; [destruct (po_syn o) eqn:Esyn|].
       + (* reserved but synthetic: continue *)
         exec_head ltac:(rws3 Hget Ef Esyn).
         ss. fold canon_rw_oneofs_body.
         replace (S (length done_os)) with (length (done_os ++ [o])) by (rewrite app_length; simpl; lia).
         rewrite (IH (done_os ++ [o])); [|rewrite <- app_assoc; exact Hget].
-        rewrite <- app_assoc. simpl. replace (gp_rw_oneof o) with o; [reflexivity|]. unfold gp_rw_oneof. rewrite Esyn. reflexivity.
+        rewrite <- app_assoc. simpl. replace (gpp_rw_oneof o) with o; [reflexivity|]. unfold gpp_rw_oneof. rewrite Esyn. reflexivity.
       + assert (Hres : is_reserved (po_go o) = true) by (apply Hrm; congruence).
         exec_head ltac:(rws3 Hget Ef Esyn).
         exec_head ltac:(rws Hget Ef).
         exec_head ltac:(rws Hget Ef).
-        rewrite gp_block_nil. ss. fold canon_rw_oneofs_body.
+        rewrite gpp_block_nil. ss. fold canon_rw_oneofs_body.
         change (po_go o ++ ["_"%byte]) with (po_go o ++ [us]). rewrite <- (rewrite_field_reserved _ Hres).
-        replace {| po_go := rewrite_field (po_go o); po_syn := po_syn o; po_full := po_full o |} with (gp_rw_oneof o)
-          by (unfold gp_rw_oneof; rewrite Esyn; reflexivity).
-        replace (S (length done_os)) with (length (done_os ++ [gp_rw_oneof o])) by (rewrite app_length; simpl; lia).
-        rewrite (IH (done_os ++ [gp_rw_oneof o])); [|rewrite <- app_assoc; apply (get_set_same _ _ _ _ _ Hget)].
+        replace {| po_go := rewrite_field (po_go o); po_syn := po_syn o; po_full := po_full o |} with (gpp_rw_oneof o)
+          by (unfold gpp_rw_oneof; rewrite Esyn; reflexivity).
+        replace (S (length done_os)) with (length (done_os ++ [gpp_rw_oneof o])) by (rewrite app_length; simpl; lia).
+        rewrite (IH (done_os ++ [gpp_rw_oneof o])); [|rewrite <- app_assoc; apply (get_set_same _ _ _ _ _ Hget)].
         rewrite set_set_same. rewrite <- app_assoc. reflexivity.
       + assert (Hres : is_reserved (po_go o) = false).
         { destruct (is_reserved (po_go o)) eqn:Er; [|reflexivity]. apply Hrm in Er. congruence. }
@@ -647,31 +647,31 @@ Section RW.
         replace (S (length done_os)) with (length (done_os ++ [o])) by (rewrite app_length; simpl; lia).
         rewrite (IH (done_os ++ [o])); [|rewrite <- app_assoc; exact Hget].
         rewrite <- app_assoc. simpl.
-        replace (gp_rw_oneof o) with o; [reflexivity|]. unfold gp_rw_oneof. rewrite (rewrite_field_free _ Hres). destruct o as [g sy fu]; simpl. destruct sy; reflexivity.
+        replace (gpp_rw_oneof o) with o; [reflexivity|]. unfold gpp_rw_oneof. rewrite (rewrite_field_free _ Hres). destruct o as [g sy fu]; simpl. destruct sy; reflexivity.
   Qed.
 End RW.
 
-Fixpoint pmsg_ind' (Q : pmsg -> Prop) (H : forall full me fs os ms, Forall Q ms -> Q (PMsg full me fs os ms)) (m : pmsg) : Q m :=
+Fixpoint pmsg_ind' (Q : pmsg -> Prop) (H : forall full me fs os ms, Forall Q ms -> Q (GpMsg full me fs os ms)) (m : pmsg) : Q m :=
   match m with
-  | PMsg full me fs os ms =>
+  | GpMsg full me fs os ms =>
     H full me fs os ms ((fix go (l : list pmsg) : Forall Q l :=
                            match l with [] => Forall_nil Q | c :: t => Forall_cons c (pmsg_ind' Q H c) (go t) end) ms)
   end.
 
-Lemma gp_rw_msg_eq : forall full me fs os ms done,
-  gp_rw_msg (PMsg full me fs os ms) done =
-  match gp_map_get full done with
-  | Some _ => (PMsg full me fs os ms, done)
-  | None => if me then (PMsg full me fs os ms, done)
-            else (PMsg full me (map gp_rw_field fs) (map gp_rw_oneof os) (fst (gp_rw_forest ms (gp_map_set full GpvUnit done))),
-                  snd (gp_rw_forest ms (gp_map_set full GpvUnit done)))
+Lemma gpp_rw_msg_eq : forall full me fs os ms done,
+  gpp_rw_msg (GpMsg full me fs os ms) done =
+  match gpp_map_get full done with
+  | Some _ => (GpMsg full me fs os ms, done)
+  | None => if me then (GpMsg full me fs os ms, done)
+            else (GpMsg full me (map gpp_rw_field fs) (map gpp_rw_oneof os) (fst (gpp_rw_forest ms (gpp_map_set full GpvUnit done))),
+                  snd (gpp_rw_forest ms (gpp_map_set full GpvUnit done)))
   end.
 Proof. reflexivity. Qed.
 
-Lemma gp_heap_get_set_same : forall MM q d x, gp_heap_get MM q = Some d -> gp_heap_get (gp_list_set q x MM) q = Some x.
-Proof. unfold gp_heap_get. intros. eapply gp_list_set_nth; eauto. Qed.
-Lemma gp_heap_get_set_other : forall MM q r x, q <> r -> gp_heap_get (gp_list_set q x MM) r = gp_heap_get MM r.
-Proof. unfold gp_heap_get. intros. apply gp_list_set_other. congruence. Qed.
+Lemma gpp_heap_get_set_same : forall MM q d x, gpp_heap_get MM q = Some d -> gpp_heap_get (gpp_list_set q x MM) q = Some x.
+Proof. unfold gpp_heap_get. intros. eapply gpp_list_set_nth; eauto. Qed.
+Lemma gpp_heap_get_set_other : forall MM q r x, q <> r -> gpp_heap_get (gpp_list_set q x MM) r = gpp_heap_get MM r.
+Proof. unfold gpp_heap_get. intros. apply gpp_list_set_other. congruence. Qed.
 
 Section RW2.
   Variable perm : gpmap -> gpmap.
@@ -680,63 +680,63 @@ Section RW2.
   Variable call : gname -> list gpvalue -> gpstate -> gpres (list gpvalue).
   Variables (G : gpframe) (O : list pout) (P : list (name * name)) (E : option (gname * list name)).
   Variables (i : nat) (p : list nat) (q r : nat) (rm : gpmap).
-  Hypothesis HG : gp_glob_get "reservedFieldNames"%gname G = Some (GpvMap (Some r)).
+  Hypothesis HG : gpp_glob_get "reservedFieldNames"%gname G = Some (GpvMap (Some r)).
   Hypothesis Hqr : q <> r.
   Hypothesis Hp : p <> [].
   Variables (full : name) (me : bool) (fs : list pfield) (os : list poneof).
 
   Definition child_ok (c : pmsg) : Prop :=
     forall st k d,
-      gp_glob_get "reservedFieldNames"%gname (gp_glob st) = Some (GpvMap (Some r)) -> gp_heap_get (gp_maps st) r = Some rm ->
-      gp_heap_get (gp_maps st) q = Some d -> gp_get_msg (gp_files st) i (p ++ [k]) = Some c ->
+      gpp_glob_get "reservedFieldNames"%gname (gpp_glob st) = Some (GpvMap (Some r)) -> gpp_heap_get (gpp_maps st) r = Some rm ->
+      gpp_heap_get (gpp_maps st) q = Some d -> gpp_get_msg (gpp_files st) i (p ++ [k]) = Some c ->
       call "rewriteMessageField"%gname [GpvMsg i (p ++ [k]); GpvMap (Some q)] st
-      = GpOk [] (gp_with_maps (gp_with_files st (gp_set_msg (gp_files st) i (p ++ [k]) (fst (gp_rw_msg c d))))
-                              (gp_list_set q (snd (gp_rw_msg c d)) (gp_maps st))).
+      = GpOk [] (gpp_with_maps (gpp_with_files st (gpp_set_msg (gpp_files st) i (p ++ [k]) (fst (gpp_rw_msg c d))))
+                              (gpp_list_set q (snd (gpp_rw_msg c d)) (gpp_maps st))).
 
   Notation STN F MM :=
-    {| gp_env := [[("message"%gname, GpvMsg i p); ("processed"%gname, GpvMap (Some q))]]; gp_glob := G; gp_maps := MM; gp_files := F;
-       gp_outs := O; gp_params := P; gp_err := E |}.
+    {| gpp_env := [[("message"%gname, GpvMsg i p); ("processed"%gname, GpvMap (Some q))]]; gpp_glob := G; gpp_maps := MM; gpp_files := F;
+       gpp_outs := O; gpp_params := P; gpp_err := E |}.
 
   Lemma rw_nested_loop : forall rest done_ms F MM d j,
     Forall child_ok rest ->
-    gp_get_msg F i p = Some (PMsg full me fs os (done_ms ++ rest)) -> gp_heap_get MM q = Some d -> gp_heap_get MM r = Some rm ->
-    gp_loop (gp_range_step perm sorter feat_gen call "_" "nestedMessage" canon_rw_nested_body)
-            (gp_index_items j (map (fun k => GpvMsg i (p ++ [k])) (seq (length done_ms) (length rest)))) (STN F MM)
-    = GpOk GsgNext (STN (gp_set_msg F i p (PMsg full me fs os (done_ms ++ fst (gp_rw_forest rest d)))) (gp_list_set q (snd (gp_rw_forest rest d)) MM)).
+    gpp_get_msg F i p = Some (GpMsg full me fs os (done_ms ++ rest)) -> gpp_heap_get MM q = Some d -> gpp_heap_get MM r = Some rm ->
+    gpp_loop (gpp_range_step perm sorter feat_gen call "_" "nestedMessage" canon_rw_nested_body)
+            (gpp_index_items j (map (fun k => GpvMsg i (p ++ [k])) (seq (length done_ms) (length rest)))) (STN F MM)
+    = GpOk GsgNext (STN (gpp_set_msg F i p (GpMsg full me fs os (done_ms ++ fst (gpp_rw_forest rest d)))) (gpp_list_set q (snd (gpp_rw_forest rest d)) MM)).
   Proof.
     induction rest as [|c rest IH]; intros done_ms F MM d j Hall Hget Hq Hr.
-    - cbn [length seq map gp_index_items gp_rw_forest fst snd]. rewrite (set_get_id _ _ _ _ Hget). unfold gp_heap_get in Hq.
-      rewrite (@gp_list_set_id gpmap MM q d Hq). reflexivity.
+    - cbn [length seq map gpp_index_items gpp_rw_forest fst snd]. rewrite (set_get_id _ _ _ _ Hget). unfold gpp_heap_get in Hq.
+      rewrite (@gpp_list_set_id gpmap MM q d Hq). reflexivity.
     - inversion Hall as [|? ? Hc Hrest]; subst.
-      simpl length. simpl seq. simpl map. simpl gp_index_items. loop_head.
-      unfold gp_range_step at 1. unfold gp_scoped. unfold canon_rw_nested_body.
-      assert (Hgc : gp_get_msg F i (p ++ [length done_ms]) = Some c).
+      simpl length. simpl seq. simpl map. simpl gpp_index_items. loop_head.
+      unfold gpp_range_step at 1. unfold gpp_scoped. unfold canon_rw_nested_body.
+      assert (Hgc : gpp_get_msg F i (p ++ [length done_ms]) = Some c).
       { rewrite (get_child _ _ _ _ Hp). rewrite Hget. simpl. apply nth_error_app_mid. }
       exec_head ltac:(ss; match goal with |- context [call _ _ ?st] => rewrite (Hc st (length done_ms) d HG Hr Hq Hgc) end; ss; reflexivity).
-      rewrite gp_block_nil. ss. fold canon_rw_nested_body.
+      rewrite gpp_block_nil. ss. fold canon_rw_nested_body.
       rewrite (set_child _ _ _ _ _ c _ Hget (nth_error_app_mid _ _ _)). simpl pm_full. simpl pm_mapentry. simpl pm_fields. simpl pm_oneofs.
-      cbn [pm_msgs]. rewrite gp_list_set_app.
-      replace (S (length done_ms)) with (length (done_ms ++ [fst (gp_rw_msg c d)])) by (rewrite app_length; simpl; lia).
-      rewrite (IH (done_ms ++ [fst (gp_rw_msg c d)]) _ _ (snd (gp_rw_msg c d)) (S j) Hrest).
-      + rewrite set_set_same. rewrite gp_list_set_set. rewrite <- app_assoc. reflexivity.
+      cbn [pm_msgs]. rewrite gpp_list_set_app.
+      replace (S (length done_ms)) with (length (done_ms ++ [fst (gpp_rw_msg c d)])) by (rewrite app_length; simpl; lia).
+      rewrite (IH (done_ms ++ [fst (gpp_rw_msg c d)]) _ _ (snd (gpp_rw_msg c d)) (S j) Hrest).
+      + rewrite set_set_same. rewrite gpp_list_set_set. rewrite <- app_assoc. reflexivity.
       + rewrite <- app_assoc. apply (get_set_same _ _ _ _ _ Hget).
-      + apply (gp_heap_get_set_same _ _ d). exact Hq.
-      + rewrite gp_heap_get_set_other by exact Hqr. exact Hr.
+      + apply (gpp_heap_get_set_same _ _ d). exact Hq.
+      + rewrite gpp_heap_get_set_other by exact Hqr. exact Hr.
   Qed.
 End RW2.
 
-Lemma pm_depth_children : forall full me fs os ms fuel c, pm_depth (PMsg full me fs os ms) <= S fuel -> In c ms -> pm_depth c <= fuel.
+Lemma pm_depth_children : forall full me fs os ms fuel c, pm_depth (GpMsg full me fs os ms) <= S fuel -> In c ms -> pm_depth c <= fuel.
 Proof.
   intros full me fs os ms fuel c H Hin. simpl in H. apply le_S_n in H.
   induction ms as [|a ms IH]; [destruct Hin|]. simpl in H. destruct Hin as [->|Hin]; [lia | apply IH; [lia | exact Hin]].
 Qed.
 
 Lemma gpstate_eta : forall st,
-  {| gp_env := gp_env st; gp_glob := gp_glob st; gp_maps := gp_maps st; gp_files := gp_files st; gp_outs := gp_outs st;
-     gp_params := gp_params st; gp_err := gp_err st |} = st.
+  {| gpp_env := gpp_env st; gpp_glob := gpp_glob st; gpp_maps := gpp_maps st; gpp_files := gpp_files st; gpp_outs := gpp_outs st;
+     gpp_params := gpp_params st; gpp_err := gpp_err st |} = st.
 Proof. destruct st; reflexivity. Qed.
 
-Ltac rwx a b c d := ss; repeat (progress (unfold gp_scoped; rewrite ?a, ?b, ?c, ?d); ss); reflexivity.
+Ltac rwx a b c d := ss; repeat (progress (unfold gpp_scoped; rewrite ?a, ?b, ?c, ?d); ss); reflexivity.
 
 Lemma rewrite_prog : rewrite_prog_stmt.
 Proof.
@@ -745,51 +745,51 @@ Proof.
   intros fuel st r q i p done [HG [rm [HR Hrm]]] Hqr Hq Hget Hdepth.
   destruct fuel as [|fuel]; [simpl in Hdepth; lia|].
   assert (Hp : p <> []) by (apply (get_msg_path_ne _ _ _ _ Hget)).
-  rewrite gp_rw_msg_eq. rewrite gp_call_S. set (call := gp_call perm sorter feat_gen canon_genprog fuel).
+  rewrite gpp_rw_msg_eq. rewrite gpp_call_S. set (call := gpp_call perm sorter feat_gen canon_genprog fuel).
   ss. unfold canon_rewriteMessageField_body.
-  destruct (gp_map_get full done) as [u|] eqn:Edone.
+  destruct (gpp_map_get full done) as [u|] eqn:Edone.
   { (* already processed *)
     exec_head ltac:(rwx Hq Hget Edone Edone).
-    ss. rewrite (set_get_id _ _ _ _ Hget). unfold gp_heap_get in Hq. rewrite (@gp_list_set_id gpmap _ _ _ Hq). rewrite gpstate_eta. reflexivity. }
+    ss. rewrite (set_get_id _ _ _ _ Hget). unfold gpp_heap_get in Hq. rewrite (@gpp_list_set_id gpmap _ _ _ Hq). rewrite gpstate_eta. reflexivity. }
   exec_head ltac:(rwx Hq Hget Edone Edone).
   destruct me.
   { (* a map entry *)
     exec_head ltac:(rwx Hget Hget Hget Hget).
-    ss. rewrite (set_get_id _ _ _ _ Hget). unfold gp_heap_get in Hq. rewrite (@gp_list_set_id gpmap _ _ _ Hq). rewrite gpstate_eta. reflexivity. }
+    ss. rewrite (set_get_id _ _ _ _ Hget). unfold gpp_heap_get in Hq. rewrite (@gpp_list_set_id gpmap _ _ _ Hq). rewrite gpstate_eta. reflexivity. }
   exec_head ltac:(rwx Hget Hget Hget Hget).
   (* the fields *)
-  rewrite gp_block_cons. rewrite gp_exec_range. ss. rewrite Hget. ss.
-  pose proof (rw_fields_loop perm sorter feat_gen call (gp_glob st) (gp_maps st) (gp_outs st) (gp_params st) (gp_err st) i p q r rm HG HR Hrm full false
-                          os ms fs [] (gp_files st) 0 Hget) as HL1.
+  rewrite gpp_block_cons. rewrite gpp_exec_range. ss. rewrite Hget. ss.
+  pose proof (rw_fields_loop perm sorter feat_gen call (gpp_glob st) (gpp_maps st) (gpp_outs st) (gpp_params st) (gpp_err st) i p q r rm HG HR Hrm full false
+                          os ms fs [] (gpp_files st) 0 Hget) as HL1.
   cbn [length app] in HL1. rewrite HL1. clear HL1. ss.
   (* the oneofs *)
-  pose proof (get_set_same _ _ _ _ (PMsg full false (map gp_rw_field fs) os ms) Hget) as Hget1.
-  rewrite gp_block_cons. rewrite gp_exec_range. ss. rewrite Hget1. ss.
-  pose proof (rw_oneofs_loop perm sorter feat_gen call (gp_glob st) (gp_maps st) (gp_outs st) (gp_params st) (gp_err st) i p q r rm HG HR Hrm full false
-                          (map gp_rw_field fs) ms os [] _ 0 Hget1) as HL2.
+  pose proof (get_set_same _ _ _ _ (GpMsg full false (map gpp_rw_field fs) os ms) Hget) as Hget1.
+  rewrite gpp_block_cons. rewrite gpp_exec_range. ss. rewrite Hget1. ss.
+  pose proof (rw_oneofs_loop perm sorter feat_gen call (gpp_glob st) (gpp_maps st) (gpp_outs st) (gpp_params st) (gpp_err st) i p q r rm HG HR Hrm full false
+                          (map gpp_rw_field fs) ms os [] _ 0 Hget1) as HL2.
   cbn [length app] in HL2. rewrite HL2. clear HL2. ss. rewrite set_set_same.
-  pose proof (get_set_same _ _ _ _ (PMsg full false (map gp_rw_field fs) (map gp_rw_oneof os) ms) Hget) as Hget2.
+  pose proof (get_set_same _ _ _ _ (GpMsg full false (map gpp_rw_field fs) (map gpp_rw_oneof os) ms) Hget) as Hget2.
   (* processed[full] = struct{}{} *)
   exec_head ltac:(rwx Hget2 Hq Hq Hq).
   (* the nested messages *)
-  rewrite gp_block_cons. rewrite gp_exec_range. ss. rewrite Hget2. ss.
+  rewrite gpp_block_cons. rewrite gpp_exec_range. ss. rewrite Hget2. ss.
   assert (Hchildren : Forall (child_ok call i p q r rm) ms).
   { apply Forall_forall. intros c Hin. rewrite Forall_forall in IHms. intros st' k d' HG' HR' Hq' Hget'.
     apply (IHms c Hin fuel st' r q i (p ++ [k]) d'); try assumption.
     - split; [exact HG' | exists rm; split; [exact HR' | exact Hrm]].
     - apply (pm_depth_children full false fs os ms); assumption. }
-  assert (Hq3 : gp_heap_get (gp_list_set q (gp_map_set full GpvUnit done) (gp_maps st)) q = Some (gp_map_set full GpvUnit done))
-    by (apply (gp_heap_get_set_same _ _ done); exact Hq).
-  assert (Hr3 : gp_heap_get (gp_list_set q (gp_map_set full GpvUnit done) (gp_maps st)) r = Some rm)
-    by (rewrite gp_heap_get_set_other by exact Hqr; exact HR).
-  pose proof (rw_nested_loop perm sorter feat_gen call (gp_glob st) (gp_outs st) (gp_params st) (gp_err st) i p q r rm HG Hqr Hp full false
-                          (map gp_rw_field fs) (map gp_rw_oneof os) ms [] _ _ (gp_map_set full GpvUnit done) 0 Hchildren Hget2 Hq3 Hr3) as HL3.
+  assert (Hq3 : gpp_heap_get (gpp_list_set q (gpp_map_set full GpvUnit done) (gpp_maps st)) q = Some (gpp_map_set full GpvUnit done))
+    by (apply (gpp_heap_get_set_same _ _ done); exact Hq).
+  assert (Hr3 : gpp_heap_get (gpp_list_set q (gpp_map_set full GpvUnit done) (gpp_maps st)) r = Some rm)
+    by (rewrite gpp_heap_get_set_other by exact Hqr; exact HR).
+  pose proof (rw_nested_loop perm sorter feat_gen call (gpp_glob st) (gpp_outs st) (gpp_params st) (gpp_err st) i p q r rm HG Hqr Hp full false
+                          (map gpp_rw_field fs) (map gpp_rw_oneof os) ms [] _ _ (gpp_map_set full GpvUnit done) 0 Hchildren Hget2 Hq3 Hr3) as HL3.
   cbn [length app] in HL3. rewrite HL3. clear HL3.
-  ss. rewrite set_set_same. rewrite gp_list_set_set. reflexivity.
+  ss. rewrite set_set_same. rewrite gpp_list_set_set. reflexivity.
 Qed.
 
 (* ---- (d) generateAllFiles ------------------------------------------------------------------------------------------------------------ *)
-Lemma gp_all_files_refs : forall k n, gp_all_files (map GpvFile (seq k n)) = true.
+Lemma gpp_all_files_refs : forall k n, gpp_all_files (map GpvFile (seq k n)) = true.
 Proof. intros k n. revert k. induction n as [|n IH]; intro k; simpl; auto. Qed.
 
 Lemma required_in_registry : forall names acc r, required names acc = Some r ->
@@ -808,17 +808,17 @@ Proof.
   unfold find_features. intros names fs H n Hin. destruct (required names []) as [r|] eqn:Er; [|discriminate]. inversion H; subst.
   apply (required_in_registry names [] r Er); [intros ? []|]. apply Permutation_in with (l := GenOrder.sort r); [apply sort_is_permutation | exact Hin].
 Qed.
-Lemma required_none_unknown : forall names acc, required names acc = None -> exists n, gp_first_unknown names = Some n.
+Lemma required_none_unknown : forall names acc, required names acc = None -> exists n, gpp_first_unknown names = Some n.
 Proof.
   induction names as [|x names IH]; intros acc H; simpl in *; [discriminate|].
   destruct (name_eqb x s_all); [discriminate|]. destruct (lookup x); [apply (IH _ H) | exists x; reflexivity].
 Qed.
-Lemma generated_feats : forall feat_gen reg fs, gp_registry_ok feat_gen reg -> (forall n, In n fs -> lookup n <> None) ->
-  existsb feat_gen (map (gp_feat_value reg) fs) = generated fs.
+Lemma generated_feats : forall feat_gen reg fs, gpp_registry_ok feat_gen reg -> (forall n, In n fs -> lookup n <> None) ->
+  existsb feat_gen (map (gpp_feat_value reg) fs) = generated fs.
 Proof.
   intros feat_gen reg fs [Hp Hfg] Hin. unfold generated. induction fs as [|n fs IH]; [reflexivity|]. simpl.
   rewrite IH by (intros; apply Hin; right; assumption). f_equal.
-  unfold gp_feat_value. destruct (gp_map_get n reg) as [v|] eqn:Ev; [apply Hfg; exact Ev|].
+  unfold gpp_feat_value. destruct (gpp_map_get n reg) as [v|] eqn:Ev; [apply Hfg; exact Ev|].
   exfalso. apply (Hin n (or_introl eq_refl)). apply (reg_lookup reg n Hp). exact Ev.
 Qed.
 
@@ -831,37 +831,37 @@ Section GF.
   Variables (feats : list gpvalue) (Vn Vp : gpvalue).
 
   Notation STG F O :=
-    {| gp_env := [[("err"%gname, GpvErr None); ("gen"%gname, GpvGen feats); ("ext"%gname, GpvExt); ("plugin"%gname, GpvPlugin);
+    {| gpp_env := [[("err"%gname, GpvErr None); ("gen"%gname, GpvGen feats); ("ext"%gname, GpvExt); ("plugin"%gname, GpvPlugin);
                    ("featureNames"%gname, Vn); ("poolable"%gname, Vp)]];
-       gp_glob := G; gp_maps := MM; gp_files := F; gp_outs := O; gp_params := P; gp_err := E |}.
+       gpp_glob := G; gpp_maps := MM; gpp_files := F; gpp_outs := O; gpp_params := P; gpp_err := E |}.
 
   Lemma gf_loop : forall rest done O j,
-    gp_loop (gp_range_step perm sorter feat_gen call "_" "file" canon_gen_files_body)
-            (gp_index_items j (map GpvFile (seq (length done) (length rest)))) (STG (done ++ rest) O)
-    = GpOk GsgNext (STG (done ++ rest) (O ++ map (gp_out_of (existsb feat_gen feats)) (filter fi_generate rest))).
+    gpp_loop (gpp_range_step perm sorter feat_gen call "_" "file" canon_gen_files_body)
+            (gpp_index_items j (map GpvFile (seq (length done) (length rest)))) (STG (done ++ rest) O)
+    = GpOk GsgNext (STG (done ++ rest) (O ++ map (gpp_out_of (existsb feat_gen feats)) (filter fi_generate rest))).
   Proof.
     induction rest as [|f rest IH]; intros done O j.
     - simpl. rewrite !app_nil_r. reflexivity.
-    - simpl length. simpl seq. simpl map. simpl gp_index_items. loop_head.
-      unfold gp_range_step at 1. unfold gp_scoped. unfold canon_gen_files_body.
+    - simpl length. simpl seq. simpl map. simpl gpp_index_items. loop_head.
+      unfold gpp_range_step at 1. unfold gpp_scoped. unfold canon_gen_files_body.
       assert (Hf : nth_error (done ++ f :: rest) (length done) = Some f) by apply nth_error_app_mid.
       destruct (fi_generate f) eqn:Eg.
       + exec_head ltac:(rwx Hf Eg Eg Eg).
         exec_head ltac:(rwx Hf Eg Eg Eg).
-        exec_head ltac:(ss; rewrite nth_error_snoc_new; ss; rewrite gp_list_set_snoc; reflexivity).
-        exec_head ltac:(ss; rewrite Hf; ss; rewrite nth_error_snoc_new; ss; rewrite gp_list_set_snoc; reflexivity).
+        exec_head ltac:(ss; rewrite nth_error_snoc_new; ss; rewrite gpp_list_set_snoc; reflexivity).
+        exec_head ltac:(ss; rewrite Hf; ss; rewrite nth_error_snoc_new; ss; rewrite gpp_list_set_snoc; reflexivity).
         destruct (fi_proto3 f && existsb feat_gen feats) eqn:Eb.
         * exec_head ltac:(ss; rewrite nth_error_snoc_new; rewrite Hf; ss; rewrite Eb; ss; reflexivity).
-          rewrite gp_block_nil. ss. fold canon_gen_files_body.
+          rewrite gpp_block_nil. ss. fold canon_gen_files_body.
           replace (S (length done)) with (length (done ++ [f])) by (rewrite app_length; simpl; lia).
           replace (done ++ f :: rest) with ((done ++ [f]) ++ rest) by (rewrite <- app_assoc; reflexivity).
-          rewrite IH. unfold gp_out_of at 2. rewrite Eb. simpl negb.
+          rewrite IH. unfold gpp_out_of at 2. rewrite Eb. simpl negb.
           rewrite <- (app_assoc O). rewrite !app_nil_r. reflexivity.
-        * exec_head ltac:(ss; repeat (progress (unfold gp_scoped; rewrite ?nth_error_snoc_new, ?gp_list_set_snoc, ?Hf, ?Eb); ss); reflexivity).
-          rewrite gp_block_nil. ss. fold canon_gen_files_body.
+        * exec_head ltac:(ss; repeat (progress (unfold gpp_scoped; rewrite ?nth_error_snoc_new, ?gpp_list_set_snoc, ?Hf, ?Eb); ss); reflexivity).
+          rewrite gpp_block_nil. ss. fold canon_gen_files_body.
           replace (S (length done)) with (length (done ++ [f])) by (rewrite app_length; simpl; lia).
           replace (done ++ f :: rest) with ((done ++ [f]) ++ rest) by (rewrite <- app_assoc; reflexivity).
-          rewrite IH. unfold gp_out_of at 2. rewrite Eb. simpl negb.
+          rewrite IH. unfold gpp_out_of at 2. rewrite Eb. simpl negb.
           rewrite <- (app_assoc O). rewrite !app_nil_r. reflexivity.
       + exec_head ltac:(rwx Hf Eg Eg Eg).
         ss. fold canon_gen_files_body.
@@ -874,28 +874,28 @@ End GF.
 Lemma generate_all_files_prog : generate_all_files_prog_stmt.
 Proof.
   intros perm sorter feat_gen fuel st reg names pool Hperm Hsort Hfs Hrok. pose proof Hrok as [Hreg Hfg].
-  pose (st3 := {| gp_env := [[("ext"%gname, GpvExt); ("plugin"%gname, GpvPlugin); ("featureNames"%gname, GpvSlice (map GpvStr names));
+  pose (st3 := {| gpp_env := [[("ext"%gname, GpvExt); ("plugin"%gname, GpvPlugin); ("featureNames"%gname, GpvSlice (map GpvStr names));
                              ("poolable"%gname, GpvMap pool)]];
-                  gp_glob := gp_glob st; gp_maps := gp_maps st; gp_files := gp_files st; gp_outs := gp_outs st; gp_params := gp_params st;
-                  gp_err := gp_err st |}).
+                  gpp_glob := gpp_glob st; gpp_maps := gpp_maps st; gpp_files := gpp_files st; gpp_outs := gpp_outs st; gpp_params := gpp_params st;
+                  gpp_err := gpp_err st |}).
   destruct (find_features_prog perm sorter feat_gen fuel st3 reg names Hperm Hsort Hfs Hreg) as [m Hm]. unfold st3 in Hm. clear st3.
-  exists m. unfold gp_find_features_spec in Hm.
-  rewrite gp_call_S. remember (gp_call perm sorter feat_gen canon_genprog (S fuel)) as call eqn:Hcall.
+  exists m. unfold gpp_find_features_spec in Hm.
+  rewrite gpp_call_S. remember (gpp_call perm sorter feat_gen canon_genprog (S fuel)) as call eqn:Hcall.
   try rewrite <- Hcall in Hm.
   ss. unfold canon_generateAllFiles_body.
   exec_head ltac:(ss; reflexivity).
   destruct (find_features names) as [fs|] eqn:Eff.
-  - exec_head ltac:(ss; rewrite gp_all_files_refs; ss; rewrite Hm; ss; reflexivity).
+  - exec_head ltac:(ss; rewrite gpp_all_files_refs; ss; rewrite Hm; ss; reflexivity).
     exec_head ltac:(ss; reflexivity).
-    rewrite gp_block_cons. rewrite gp_exec_range. ss.
-    pose proof (gf_loop perm sorter feat_gen call (gp_glob st) (gp_maps st ++ [m]) (gp_params st) (gp_err st) (map (gp_feat_value reg) fs)
-                        (GpvSlice (map GpvStr names)) (GpvMap pool) (gp_files st) [] (gp_outs st) 0) as HL.
+    rewrite gpp_block_cons. rewrite gpp_exec_range. ss.
+    pose proof (gf_loop perm sorter feat_gen call (gpp_glob st) (gpp_maps st ++ [m]) (gpp_params st) (gpp_err st) (map (gpp_feat_value reg) fs)
+                        (GpvSlice (map GpvStr names)) (GpvMap pool) (gpp_files st) [] (gpp_outs st) 0) as HL.
     cbn [length app] in HL. rewrite HL. clear HL. ss.
     rewrite (generated_feats feat_gen reg fs Hrok (find_features_in_registry names fs Eff)). reflexivity.
-  - assert (Hn : exists n, gp_first_unknown names = Some n).
+  - assert (Hn : exists n, gpp_first_unknown names = Some n).
     { unfold find_features in Eff. destruct (required names []) eqn:Er; [discriminate|]. apply (required_none_unknown _ _ Er). }
     destruct Hn as [n Hn]. rewrite Hn in *.
-    exec_head ltac:(ss; rewrite gp_all_files_refs; ss; rewrite Hm; ss; reflexivity).
+    exec_head ltac:(ss; rewrite gpp_all_files_refs; ss; rewrite Hm; ss; reflexivity).
     exec_head ltac:(ss; reflexivity).
     ss. reflexivity.
 Qed.
